@@ -59,7 +59,7 @@ class BuildFailure(Exception):
         return c
 
 
-def build_system(states, gen, rng, sysname="sys"):
+def build_system(states, gen, rng, sysname="sys", shared=None):
     """replay a SpecBuild behaviour with numeric components; returns the System.  Every call of such a behaviour
     is accepted by the specification (SysTree guards); a call the library refuses raises BuildFailure"""
     from sysloss.system import System
@@ -77,7 +77,12 @@ def build_system(states, gen, rng, sysname="sys"):
         elif op == "add_comp":
             parents = resolve(s, a["refs"])
             c = build(gen.desc(a["comp"]["cls"], a["comp"]["name"], parents))
-            s.add_comp(list(a["refs"]) if a["aslist"] else a["refs"][0], comp=c, rail=a["rail"], group=a["group"])
+            if a["aslist"] and shared is not None:
+                # the caller keeps ONE list object for the parents and uses it for several systems
+                parent = shared.setdefault(a["comp"]["name"], list(a["refs"]))
+            else:
+                parent = list(a["refs"]) if a["aslist"] else a["refs"][0]
+            s.add_comp(parent, comp=c, rail=a["rail"], group=a["group"])
         elif op == "set_sys_phases":
             s.set_sys_phases({p["name"]: float("%.3g" % math.exp(rng.uniform(math.log(0.05), math.log(2000))))
                               for p in a["phases"]})
